@@ -21,6 +21,7 @@ type PropMeta struct {
 	ExtraTags    string
 	Env          []string
 	RaceFraction float64 // fraction of workers running the -race build
+	NonRootFraction float64 // fraction of workers that drop to uid 65534
 	NoMinimise   bool
 	EnumTotal    int // size of the sub-space the thorough tier enumerates completely (probe enum_cases)
 }
@@ -78,6 +79,16 @@ var Meta = map[string]PropMeta{
 		Real:      realCommon, Stub: stubCommon,
 		Quick:     q(400, 50*time.Second),
 		Thorough:  q(20000, 15*time.Minute),
+	},
+	"C11": {
+		Level:     "exploration",
+		Technique: "deterministic simulation as execution vehicle: in-process real client and daemon sessions in both directions at two privilege levels (root and uid 65534 worker processes), every subset of the preserve options; lstat oracle on exactly the promised fields; reference sender for name-based id mapping",
+		Rule:      "sync mode: tree of up to 12 entries with permission values drawn from 0000..0777 (a quarter lacking owner write), mtimes over the signed 32-bit range incl. pre-1970 and sub-second parts, symlink targets of arbitrary bytes, devices, fifos, sockets, foreign uids/gids (root workers); options = -r plus a random subset of -p -t -l -D -o -g; arrangements A1/A2/A3 both directions; prior destination with stale/up-to-date files carrying their own permissions. Oracle per created entry: type; with -p mode bits; with -t regular-file mtime (seconds); with -l target; with -D rdev; as root with -o/-g owner/group; without -p an existing destination file keeps its mode. A quarter of the workers run unprivileged so that directories lacking owner write permission are a real obstacle. idmap mode (every 8th run, root): reference sender names remote uid/gid 4242/4343 as nobody|daemon|<unknown>: destination ids must be the local ids of those names, else the numeric ids. Non-trivial = more than one entry checked",
+		Assumptions: []string{"input/configuration-quantified: schedules vary per run but do not decide this property", "directory mtimes and modes of newly created files without -p are unconstrained by the property"},
+		Real:      realCommon, Stub: stubCommon,
+		Quick:     q(400, 50*time.Second),
+		Thorough:  q(20000, 15*time.Minute),
+		NonRootFraction: 0.25,
 	},
 	"C12": {
 		Level:     "exploration",
